@@ -191,7 +191,7 @@ func (q *c18QL) grab() bool {
 	return cap(q.ch) == 1
 }
 
-// parked reports whether every goroutine running this limiter's startTicker loop is blocked in
+// parked reports whether every goroutine running a limiter's startTicker loop is blocked in
 // its channel receive (found = at least one such goroutine is visible in the stack dump).
 func (q *c18QL) parked() (found, parked bool) {
 	buf := make([]byte, 1<<18)
@@ -203,7 +203,10 @@ func (q *c18QL) parked() (found, parked bool) {
 		}
 		buf = make([]byte, 2*len(buf))
 	}
-	needle := fmt.Sprintf("startTicker(0x%x)", q.v.Addr().Pointer())
+	// The receiver argument is not always printed (an inlined or not yet started startTicker shows
+	// as "startTicker(...)"), so every ticker goroutine of the plugin is looked at: cases run one at
+	// a time, and the goroutines left over from earlier cases stay blocked or have exited.
+	needle := "overloader.(*qpsLimiter).startTicker("
 	parked = true
 	for _, blk := range strings.Split(string(buf), "\n\n") {
 		if !strings.Contains(blk, needle) {
@@ -436,11 +439,14 @@ func c18RunConn(line string, f map[string]string, out *hx.Out) (string, bool) {
 					}
 				}
 				if lim > 0 && live > lim {
+					// sessions that the re-created limiter never counted explain an excess on their own;
+					// a release by a rejected connection is reported at the rejection itself (oracle
+					// reject-consumes-no-slot below) whenever a limiter exists.
 					sig := "c18:conn-over-admit"
-					if rejSince > 0 {
-						sig = "c18:reject-releases-slot"
-					} else if carried > 0 {
+					if carried > 0 {
 						sig = "c18:reenable-forgets-sessions"
+					} else if rejSince > 0 {
+						sig = "c18:reject-releases-slot"
 					}
 					viol(i, "admitted<=limit", fmt.Sprintf("connection admitted as concurrent session %d with MaxConn=%d (rejections since the limiter was created: %d, sessions open when it was created: %d)", live, lim, rejSince, carried), sig)
 				}
